@@ -78,6 +78,19 @@ var privProbes = []privProbe{
 	{Name: "view-drop-box", Needs: []int{rp.PViewDropBoxes}, Build: func(k int, e *c05Env) (uint16, []rp.Field) {
 		return rp.TGetFileNameList, []rp.Field{rp.F(rp.FFilePath, rp.FilePath("Drop Box"))}
 	}},
+	// the same folders under other spellings: the privilege follows the folder a path resolves to, not its last item
+	{Name: "view-drop-box-spelled-with-dot", Needs: []int{rp.PViewDropBoxes}, Build: func(k int, e *c05Env) (uint16, []rp.Field) {
+		return rp.TGetFileNameList, []rp.Field{rp.F(rp.FFilePath, rp.FilePath("Drop Box", "."))}
+	}},
+	{Name: "view-drop-box-spelled-with-dotdot", Needs: []int{rp.PViewDropBoxes}, Build: func(k int, e *c05Env) (uint16, []rp.Field) {
+		return rp.TGetFileNameList, []rp.Field{rp.F(rp.FFilePath, rp.FilePath("target", "..", "Drop Box", ""))}
+	}},
+	{Name: "upload-file-anywhere-spelled-uploads-dotdot", Needs: []int{rp.PUploadFile, rp.PUploadAnywhere}, Build: func(k int, e *c05Env) (uint16, []rp.Field) {
+		return rp.TUploadFile, []rp.Field{rp.FS(rp.FFileName, fmt.Sprintf("upd%02d.bin", k)), rp.F(rp.FFilePath, rp.FilePath("Uploads", "..")), rp.F32(rp.FTransferSize, 10)}
+	}},
+	{Name: "upload-folder-anywhere-spelled-dropbox-dotdot-target", Needs: []int{rp.PUploadFolder, rp.PUploadAnywhere}, Build: func(k int, e *c05Env) (uint16, []rp.Field) {
+		return rp.TUploadFldr, []rp.Field{rp.FS(rp.FFileName, fmt.Sprintf("updf%02d", k)), rp.F(rp.FFilePath, rp.FilePath("Drop Box", "..", "target")), rp.F32(rp.FTransferSize, 10), rp.F16(rp.FFolderItemCount, 1)}
+	}},
 	{Name: "read-board", Needs: []int{rp.PNewsReadArt}, Build: func(k int, e *c05Env) (uint16, []rp.Field) { return rp.TGetMsgs, nil }},
 	{Name: "post-board", Needs: []int{rp.PNewsPostArt}, Build: func(k int, e *c05Env) (uint16, []rp.Field) {
 		return rp.TOldPostNews, []rp.Field{rp.FS(rp.FData, fmt.Sprintf("board post %d", k))}
